@@ -321,7 +321,10 @@ fn judge(c: &mut Case, pb: &Problem, pu: &Published, epsf: f64, fname: &str) -> 
     let iters: f64 = pu.display.split_whitespace().nth(2).and_then(|t| t.parse::<f64>().ok()).unwrap_or(1e7);
     let drift = |mass: f64, bound: f64| epsf * (mass + bound + 1.0) * (64.0 * (n as f64).sqrt() + 4.0 * iters);
     // --- dual feasibility + KKT
-    let tau_of = |i: usize, scale: f64| pb.eps / scale + 1024.0 * epsf * (fabs[i] + 1.0) * (n as f64).max(1.0) / scale.min(1.0);
+    // the solver's own gradient is maintained incrementally too (one rounded update per SMO step),
+    // so the stopping rule it evaluates is off by a random-walk term ~ eps_F * S * sqrt(steps)
+    let tau_of = |i: usize, scale: f64| pb.eps / scale
+        + epsf * (fabs[i] + 1.0) * (1024.0 * (n as f64).max(1.0) + 64.0 * iters.sqrt()) / scale.min(1.0);
     match pb.kind {
         Kind::CSvc { cpos, cneg } => {
             let mut sum = 0.0;
